@@ -566,8 +566,8 @@ def validate_obs(events, max_rounds=8):
         # every further observation of the same routine on the same build would repeat the signature: drop them, keep judging the others
         same = lambda e: e.get("e") == bad["e"] and e.get("kind") == bad.get("kind") and e.get("rev") == bad.get("rev") and e.get("b") == bad.get("b")
         ev = [e for e in ev if not same(e)]
-    else:
-        raise InfraError("more than %d rejected sort observations of different routines in one chunk" % max_rounds)
+    # (more than max_rounds rejected observations of different routines / builds in one chunk: a tree whose sorts are broken everywhere.  The rejected ones are
+    # reported as violations by the caller; the rest of this chunk's observations stays unjudged - not an infrastructure failure)
     return rejected, agg, len(events)
 
 
